@@ -577,6 +577,10 @@ def run_worker(sc: Dict[str, Any], register: Optional[Callable[..., None]] = Non
     if _orig_time is not None:
         # execution time is measured with the wall clock: make it follow the virtual clock, plus generated steps
         _rr.time = lambda: 1.7e9 + loop.time() + WALL["offset"]  # type: ignore[attr-defined]
+    if sc.get("eager_tasks") and hasattr(asyncio, "eager_task_factory"):
+        # an event loop configured with the standard eager task factory (Python 3.12): a new task runs synchronously up to its
+        # first real suspension, so a task can already be finished when create_task() returns
+        loop.set_task_factory(asyncio.eager_task_factory)
     tr = Trace(loop)
     b = ScriptedBroker(tr)
     b.ends = bool(sc.get("ends", False))
